@@ -1468,6 +1468,27 @@ class GroupBy:
             if len(sub_arr)
         ]
 
+        if not arg_list:
+            # no group has any (selected) row: func is never called and the result is empty
+            # (all-NaN rows for transform=True)
+            col_names = self._col_names_from_value_names(value_names)
+            if transform:
+                index = (
+                    common_index
+                    if common_index is not None
+                    else pd.RangeIndex(len(self))
+                )
+                data = np.full(len(self), np.nan)
+            else:
+                index = self._result_index[:0]
+                data = np.array([], dtype=float)
+            empty = pd.DataFrame(
+                {name: pd.Series(data, index=index) for name in col_names}
+            )
+            return self._maybe_squeeze_to_1d(
+                empty, values=values, n_values=len(value_list)
+            )
+
         # TODO: allow a target vector
         results = parallel_map(func, arg_list)
         # func is only called for the groups that have (selected) rows
@@ -1621,6 +1642,9 @@ class GroupBy:
         2       45.0  50.0  55.0
         """
         result = self.apply(values=values, func=np.quantile, q=q, mask=mask)
+        if len(result) == 0:
+            # no group has any (selected) row
+            return result
         if np.ndim(q) > 0:
             result.index = result.index.set_levels(q, level=-1)
         result.index.names = [*result.index.names[:-1], "q"]
